@@ -41,6 +41,10 @@ fn det_tail(rng: &mut util::Rng) -> String {
     s.push_str("emit(dir([]))\nemit(dir(\"\"))\nemit(dir({}))\n");
     s.push_str("ss = set([\"q\", \"b\", \"zz\", \"a\", 3, 1])\nemit(list(ss))\nemit(str(ss))\nemit(list(set(dd.keys()) | ss))\n");
     s.push_str("def lvl3(x):\n    return lvl_helper_missing_attr(x)\ndef lvl_helper_missing_attr(x):\n    return x.alpa\ndef lvl2(x):\n    return [lvl3(y) for y in [x]]\ndef lvl1(x):\n    return lvl2(x)\n");
+    // several independent diagnostics in one scope (never executed): their ORDER is an output of
+    // the static checker and of the linter
+    s.push_str("def illtyped(q):\n    b1 = [1] + \"y\"\n    c1 = 1 + \"z\"\n    d1 = {} + 1\n    e1 = \"s\" - 1\n    f1 = (1, 2) * \"k\"\n    unused_one = 1\n    unused_two = 2\n    return (b1, c1, d1, e1, f1)\n");
+    s.push_str("def illtyped2(q):\n    g1 = q.missing1\n    h1 = len(1, 2)\n    i1 = \"a\".uper()\n    j1 = [].apend(1)\n    return g1\n");
     match rng.below(4) {
         0 => s.push_str("emit(lvl1(st))\n"),
         1 => s.push_str("emit(lvl1(dd))\n"),
